@@ -116,6 +116,13 @@ OnlyOwnStorage ==
         LET this == m.frames[Len(m.frames)].this
         IN \A k \in DOMAIN m'.world.storage : (k[1] # this /\ k \in DOMAIN m.world.storage) => m'.world.storage[k] = m.world.storage[k]]_vars
 
+(* design mutations (cfg: Mutation <- Mut...): each must be refuted by the invariant named in the configuration *)
+MutDelegateCaller == "delegate-caller"
+MutStaticLeak == "static-leak"
+MutNoRollback == "no-rollback"
+MutValueCreated == "value-created"
+MutLogsKept == "logs-kept"
+
 (* reachability probes: each must be violated, otherwise the invariants above are vacuous *)
 Top == m.frames[Len(m.frames)]
 NeverDepth3 == Len(m.frames) < 3
